@@ -147,6 +147,27 @@ func (e *Env) C20Save() {
 			}
 			e.Run.Check("R-SAVE", "save called from "+load.FuncName(f)+" with the real file writer", e.Prog.Pos(call.Pos()), bound == "io/ioutil.WriteFile" || bound == "os.WriteFile",
 				"writeFile bound to "+orDash(bound))
+			// the resolver handed to save is the caller's parameter or a freshly constructed one —
+			// never state kept on the Package between calls (a failed save must not influence the next)
+			okRes := false
+			switch a := call.Args[0].(type) {
+			case *ast.Ident:
+				if _, isParam := info.Uses[a].(*types.Var); isParam {
+					for _, p := range f.Type.Params.List {
+						for _, nm := range p.Names {
+							if info.Defs[nm] == info.Uses[a] {
+								okRes = true
+							}
+						}
+					}
+				}
+			case *ast.CallExpr:
+				if fn := c.Callee(a); fn != nil && fn.Pkg() != nil && strings.HasSuffix(fn.Pkg().Path(), "/resolver/gopackages") && fn.Name() == "New" {
+					okRes = true
+				}
+			}
+			e.Run.Check("R-SAVE", "save called from "+load.FuncName(f)+" with the caller's resolver or a fresh one", e.Prog.Pos(call.Pos()), okRes,
+				"resolver operand is "+c.ExprStr(call.Args[0])+": a resolver retained on the Package carries state (memoised names, configuration) from a failed save into the next")
 			return true
 		})
 	}
@@ -592,6 +613,8 @@ func init() {
 	}, func(e *Env) {
 		e.RWho()
 		e.C20Save()
+		e.RReadOnlyResolvers()
+		e.RCacheAfterSuccess()
 	})
 }
 
